@@ -274,7 +274,7 @@ def load_known(pid):
 
 # ---------------------------------------------------------------- translation tie (DESIGN.md section 4.5)
 
-def tie_stage(pid, obl):
+def tie_stage(pid, obl, tier='quick'):
     """Gen/Trans.lean was regenerated from the current source by harness/pytrans.py; re-check the theorems
     NV.Tie.* (translated function = hand-written model function) this property relies on.  Returns None when the
     property has none, else {'theorems', 'proved', 'lost': {name: why}, 'functions': {name: 'file Class.func'}}.
@@ -317,6 +317,10 @@ def tie_stage(pid, obl):
             if rc == 0:
                 _ax, raw = audit(pid + '_tie', {'theorems': names, 'modules': [tmod]})
                 parse(raw)
+                if tier == 'thorough':
+                    pc = subprocess.run(['lake', 'env', 'leanchecker', tmod], cwd=LEAN, stdout=subprocess.PIPE,
+                                        stderr=subprocess.STDOUT, timeout=3000)
+                    res.setdefault('leanchecker', {})[tmod] = pc.returncode
                 continue
             # some theorem no longer elaborates against the regenerated definitions: elaborate a copy of the file
             # with error recovery and ask for the axioms of every theorem (a broken one, and everything that
@@ -519,7 +523,7 @@ def run_check(pid, tier, seed, t0):
     # ---- translation tie: functions whose current source text is translated and proved equal to the model
     tie = None
     try:
-        tie = tie_stage(pid, obl)
+        tie = tie_stage(pid, obl, tier)
     except Exception as e:
         notes.append('translation tie could not be checked (%s: %s)' % (type(e).__name__, e))
         tie = {'theorems': obl.get('tie_theorems') or [], 'proved': [], 'functions': {},
@@ -716,7 +720,8 @@ def run_check(pid, tier, seed, t0):
                         'the listed NV.Tie theorems (kernel-checked, same axiom audit) state that each translated function '
                         'equals the hand-written model function under the code\'s own range guards; a lost theorem falls '
                         'back to the (widened) correspondence and is not a violation by itself',
-                'functions': tie['functions'], 'proved': tie['proved'], 'lost': tie['lost']}),
+                'functions': tie['functions'], 'proved': tie['proved'], 'lost': tie['lost'],
+                'leanchecker_exit': tie.get('leanchecker')}),
             'leanchecker_exit': leanchecker,
             'broken': broken[:10],
             'notes': notes,
